@@ -91,6 +91,12 @@ func (f *Feature) UnmarshalJSON(data []byte) error {
 		return err
 	}
 
+	if doc == nil {
+		// a JSON null with surrounding white space
+		*f = Feature{}
+		return nil
+	}
+
 	return featureUnmarshalFinish(doc, f)
 }
 
